@@ -49,28 +49,35 @@ Definition ex_sh_default : shared :=
   {| sh_overrides := sh_overrides rr_sh; sh_types := sh_types rr_sh; sh_explicit := []; sh_custom_names_empty := false;
      sh_global := g_empty; sh_opts := walk_builder_opts flags_default |}.
 
-(* ---------------------------------------------------------------- known finding GitlinkExcludeNoRequire *)
+(* ---------------------------------------------------------------- repaired defect GitlinkExcludeNoRequire *)
 (* `rg --no-require-git` from a linked worktree r (r/.git is a gitfile) whose repository's info/exclude names `a`:
-   the documented fold ignores r/a, the code (and the model) do not *)
+   on the pinned tree git_type was computed only under require_git, and the exclude file was not read *)
 Definition gx_name_a : gmatcher := fun p _ => if bytes_eqb (skipn (after_last_slash p) p) [97]%N then MIgnore else MNone.
 Definition gx_flags : lowflags :=
   {| f_hidden := false; f_no_ignore_dot := false; f_no_ignore_exclude := false; f_no_ignore_files := false;
      f_no_ignore_global := false; f_no_ignore_parent := false; f_no_ignore_vcs := false; f_no_require_git := true |}.
+Definition gx_dir (k : dotgit) : dirinfo :=
+  {| di_path := [114]%N; di_custom := g_empty; di_dotignore := g_empty; di_gitignore := g_empty;
+     di_exclude := gx_name_a; di_dotgit := k |}.
 Definition gx_world (k : dotgit) : world :=
   {| w_cmd := {| c_globs := sh_overrides rr_sh; c_types := sh_types rr_sh; c_ignore_files := []; c_global := g_empty |};
-     w_canon := None; w_above := [];
-     w_below := [ {| di_path := [114]%N; di_custom := g_empty; di_dotignore := g_empty; di_gitignore := g_empty;
-                     di_exclude := gx_name_a; di_dotgit := k |} ] |}.
-Lemma decide_eq_world_all_refuted_proof :
-  exists (f : lowflags) (w : world) (path : bytes) (is_dir : bool),
-    w_below w <> [] /\ decide f w path is_dir = MNone /\ decide_world f w path is_dir = MIgnore.
-Proof. exists gx_flags, (gx_world GitFile), [114; 47; 97]%N, false. split; [discriminate|]. vm_compute. split; reflexivity. Qed.
+     w_canon := None; w_above := []; w_below := [gx_dir k] |}.
 
-(* the same worktree root with a .git directory, or without --no-require-git, is outside the class *)
-Lemma gx_outside_class : ~ GitlinkExcludeNoRequire gx_flags (gx_world GitDir)
-                         /\ ~ GitlinkExcludeNoRequire flags_default (gx_world GitFile).
+(* with the code as repaired the exclude file is read whenever exclude rules are on *)
+Lemma exclude_as_read_eq_proof (o : opts) (d : dirinfo) :
+  o_git_exclude o = true -> exclude_as_read o d = di_exclude d.
 Proof.
-  split; intros [H1 (d & Hd & Hk)].
-  - cbn in Hd. destruct Hd as [<-|[]]. discriminate.
-  - discriminate.
+  intro H. unfold exclude_as_read, exclude_as_read_with, git_type_seen. rewrite H, orb_true_r.
+  destruct (di_dotgit d); reflexivity.
 Qed.
+(* ... and on the pinned text it was not *)
+Lemma exclude_as_read_pinned_refuted_proof :
+  exists (o : opts) (d : dirinfo) (p : bytes) (is_dir : bool),
+    o_git_exclude o = true /\ exclude_as_read_with git_type_seen_pinned o d p is_dir = MNone /\ di_exclude d p is_dir = MIgnore.
+Proof. exists (walk_builder_opts gx_flags), (gx_dir GitFile), [114; 47; 97]%N, false. vm_compute. repeat split; reflexivity. Qed.
+(* the former witness now follows the documentation *)
+Lemma gx_witness_now_ignored :
+  decide gx_flags (gx_world GitFile) [114; 47; 97]%N false = MIgnore
+  /\ decide_world gx_flags (gx_world GitFile) [114; 47; 97]%N false = MIgnore.
+Proof. vm_compute. split; reflexivity. Qed.
+
